@@ -1,4 +1,5 @@
 import GomlVerif.Model.Tree
+import GomlVerif.Model.Grammar
 import GomlVerif.Driver.Common
 /-! C12 driver. One case per line:
 
@@ -93,6 +94,29 @@ def showRange : Option (Nat × Nat) → String
   | none => "-"
   | some (a, b) => s!"{a}..{b}"
 
+def showEv : Ev → String
+  | .op k none => s!"O{k}"
+  | .op k (some f) => s!"O{k}+{f}"
+  | .close => "C"
+  | .advance => "A"
+  | .error m => "E<" ++ m ++ ">"
+
+def evDiff : Nat → List Ev → List Ev → String
+  | i, [], [] => s!"none at {i}"
+  | i, a :: _, [] => s!"event {i}: model {showEv a}, real <end>"
+  | i, [], b :: _ => s!"event {i}: model <end>, real {showEv b}"
+  | i, a :: as, b :: bs => if a = b then evDiff (i + 1) as bs else s!"event {i}: model {showEv a}, real {showEv b}"
+
+/-- round 11: the grammar model (`Model/Grammar.lean`) on the kinds of the real non-trivia tokens must
+produce exactly the real `Parser.events` -/
+def grammarCheck (evs : List Ev) (real : List Tok) : String × String :=
+  let kinds := (real.filter fun t => !isTrivia t.kind).map (·.kind)
+  let s := Goml.Grammar.parseItems kinds
+  let mevs := Goml.Grammar.flatL s.out
+  if s.oof then (s!"gram=OOF trace={s.trace}", "model ran out of its call budget")
+  else if mevs = evs then (s!"gram=EQ trace={s.trace}", "")
+  else (s!"gram=DIFF trace={s.trace}", evDiff 0 mevs evs)
+
 def treeCheck (evs : List Ev) (real : List Tok) : String :=
   let flags :=
     match resolve evs with
@@ -103,7 +127,8 @@ def treeCheck (evs : List Ev) (real : List Tok) : String :=
   | some b =>
       let ds := ";".intercalate (b.diags.map fun d => showRange d.range)
       let lossless := decide ((leaves b.tree) = real)
-      s!"{render b.tree}\t{ds}\t{flags} dropped={b.dropped.length} lossless={lossless}"
+      let g := grammarCheck evs real
+      s!"{render b.tree}\t{ds}\t{flags} dropped={b.dropped.length} lossless={lossless} {g.1}\t{g.2}"
 
 def handle (line : String) : IO Unit := do
   match line.splitOn "\t" with
